@@ -17,6 +17,37 @@ Theorem C06_tables_triples : forall (n : bool) (i j k : item),
 Proof. exact tables_triples. Qed.
 Print Assumptions C06_tables_triples.
 
+(* Spec, all trees of the operator fragment (or, and, comparisons, between, in, + - * / **, unary minus, instance of, path,
+   filter, invocation with one argument; no depth bound): the precedence-climbing parser gives the tree back from the
+   minimally parenthesised rendering, for every sufficiently large fuel *)
+Theorem C06_roundtrip_min : forall t, exists f0, forall f, f0 <= f -> parse_fuel f (render_min t) = Some t.
+Proof. exact roundtrip_min. Qed.
+Print Assumptions C06_roundtrip_min.
+
+(* ... and never another tree, whatever the fuel (in particular with the fuel parse_tokens uses) *)
+Theorem C06_roundtrip_min_unique : forall t f t', parse_fuel f (render_min t) = Some t' -> t' = t.
+Proof. exact roundtrip_min_unique. Qed.
+Print Assumptions C06_roundtrip_min_unique.
+
+Theorem C06_roundtrip_full : forall t, exists f0, forall f, f0 <= f -> parse_fuel f (render_full t) = Some t.
+Proof. exact roundtrip_full. Qed.
+Print Assumptions C06_roundtrip_full.
+
+(* needed parentheses, in part: proved for every tree made of an operator over an operator (20 x 20 operator shapes, the
+   inner one in each operand position): every pair of parentheses of the minimal rendering is needed (without it parse_tokens
+   does not give the tree back) and both renderings round-trip with the concrete fuel of parse_tokens.
+   Missing: the statement for all trees (no bound); deeper trees are covered by the correspondence check only. *)
+Theorem C06_needed_paren_partial : forall k1 k2 pos, k1 < shapes -> k2 < shapes -> pos < 3 ->
+  all_needed (nested k1 k2 pos) = true /\ roundtrips (nested k1 k2 pos) = true.
+Proof. exact needed_nested. Qed.
+Print Assumptions C06_needed_paren_partial.
+
+Example C06_nonvacuous :
+  render_min (Bin Mul (Bin Add (Atom 1) (Neg (Neg (Atom 3)))) (Btw (Atom 5) (Bin And (Atom 7) (Atom 9)) (Atom 11)))
+  = [TLp; TAtom 1; TOp Add; TOp Sub; TOp Sub; TAtom 3; TRp; TOp Mul; TLp; TAtom 5; TBetween; TAtom 7; TOp And; TAtom 9; TBand; TAtom 11; TRp].
+Proof. vm_compute. reflexivity. Qed.
+Print Assumptions C06_nonvacuous.
+
 Theorem C06_unescape_surrogate_orig_refuted :
   unescape surrogate_witness = Some [128591%N] /\ unescape_orig surrogate_witness = None.
 Proof. exact (conj unescape_surrogate_witness unescape_orig_surrogate_witness). Qed.
